@@ -9,6 +9,7 @@
 import VotelibModel.Wrappers
 import VotelibModel.Simple
 import VotelibModel.HighestAverages
+import VotelibModel.QuotaDist
 namespace VL.C14
 open VL
 
@@ -164,5 +165,30 @@ def prevGainThresholdLeaf (t : Rat) (eq : Bool) : Sem := fun a => do
       pure (.list ((absThreshold t eq votes).map (candV table)))
 
 def prevGainSig : Sig := { seats := false, prev := true, max := false }
+
+/-! ### QuotaDistributor / LargestRemainder (proportional.py L163-378, model `VL.QD`) as leaves -/
+
+/-- a `prev_gains` / `max_seats` dict for `VL.QD` (Python ints); Tie keys travel under fresh ids -/
+def toIMap (v : V) : Except Err QD.IMap := do
+  let m ← toNatMap v
+  pure (m.map (fun p => (p.1, (p.2 : Int))))
+
+def selV (r : QD.Sel) : V :=
+  .dict (r.filterMap (fun p => match p.1 with
+    | .cand c => if c ≥ freshBase then Option.none else some (Key.cand c, V.num (p.2 : Rat))
+    | k => some (keyV k, V.num (p.2 : Rat))))
+
+/-- common argument binding of the two classes: `(votes, n_seats, prev_gains={}, max_seats={})`;
+    `zeroBad` = the quota function divides by the seat count (`Fraction(votes, 0)` raises) -/
+def quotaLeaf (lr : Bool) (cfg : QD.Cfg) (zeroBad : Bool) : Sem := fun a => do
+  let votes ← toVotes a.votes
+  let n ← match a.n with
+    | some v => v.asNat
+    | Option.none => throw eType
+  let prev ← toIMap (a.prev.getD (.dict []))
+  let caps ← toIMap (a.max.getD (.dict []))
+  if zeroBad && n = 0 then throw eZeroDiv
+  let r ← if lr then QD.largestRemainder cfg votes n prev caps else QD.quotaDistribute cfg votes n prev caps
+  pure (selV r)
 
 end VL.C14
